@@ -384,6 +384,53 @@ fn check_name(rep: &mut Report, name: &str, ranges: &[(u32, u32)], text: &str, p
         let n = base.len();
         rep.sample_slot(kind_of(name), || json!({"name": name, "members": n, "first": cp_json(scalars(0, MAX_CP).find(|c| f(*c)).map(|c| c as u32))}));
     }
+    // -- fn path under concurrent use: the functions are advertised as plain `fn(char) -> bool`, so the answer
+    // may not depend on what other threads ask at the same time (8 threads, each walking the scalar values of
+    // four planes from its own offset with its own stride, so that neighbours in time are far apart in the tables)
+    if paths.contains(&"fn_threads") {
+        let bad = std::sync::Mutex::new(None::<(u32, bool)>);
+        let calls = std::sync::atomic::AtomicU64::new(0);
+        std::thread::scope(|sc| {
+            for t in 0..8u32 {
+                let (base, bad, calls) = (&base, &bad, &calls);
+                sc.spawn(move || {
+                    let strides = [1u32, 67, 4099, 64, 65, 257, 129, 8191];
+                    let stride = strides[t as usize];
+                    let span = 0x40000u32; // planes 0..3, where most properties have members on both sides of U+10000
+                    let mut cp = (t * 0x7919) % span;
+                    let mut n = 0u64;
+                    for _ in 0..120_000 {
+                        if let Some(c) = char::from_u32(cp) {
+                            n += 1;
+                            let got = f(c);
+                            if got != base.get(cp) {
+                                let mut b = bad.lock().unwrap();
+                                if b.is_none() {
+                                    *b = Some((cp, got));
+                                }
+                                break;
+                            }
+                        }
+                        cp = (cp + stride) % span;
+                        // jump between the BMP and the supplementary planes now and then
+                        if n % 5 == 0 {
+                            cp = (cp + 0x10000) % span;
+                        }
+                    }
+                    calls.fetch_add(n, std::sync::atomic::Ordering::Relaxed);
+                });
+            }
+        });
+        let n = calls.load(std::sync::atomic::Ordering::Relaxed);
+        rep.add("lookups", n);
+        rep.add("scalars_checked:fn_threads", n);
+        record_path(rep, name, "fn_threads", base.len());
+        let first_bad = *bad.lock().unwrap();
+        if let Some((cp, got)) = first_bad {
+            rep.violation(witness(name, "fn_threads", Some(cp), json!({"member": base.get(cp)}), json!({"member": got}),
+                                  "the property function answered differently while 7 other threads were calling the same function"));
+        }
+    }
     // -- by_name path, exhaustive
     if paths.contains(&"by_name") {
         match pest::unicode::by_name(name) {
@@ -845,7 +892,7 @@ pub fn run(args: &Args) {
             rep.notes.insert("stopped_early_at_name".into(), json!(name));
             break;
         }
-        check_name(&mut rep, name, &ranges, &text, &["fn", "by_name", "vm", "derive", "vm_seg", "derive_seg", "vm_pair", "derive_pair"]);
+        check_name(&mut rep, name, &ranges, &text, &["fn", "fn_threads", "by_name", "vm", "derive", "vm_seg", "derive_seg", "vm_pair", "derive_pair"]);
     }
     if stopped {
         rep.inconclusive(json!({"why": "time budget reached before the shard's blocks and names were all checked"}));
